@@ -127,7 +127,9 @@ func (h *c15Hist) absorb(ctx context.Context, repo *repository.Repository, mods 
 			}
 			set := c15BlobSet{}
 			if err := data.FindUsedBlobs(ctx, repo, restic.IDs{*sn.Tree}, set, restic.NoopCounter); err != nil {
-				return fmt.Errorf("closure of snapshot %v: %w", id.Str(), err)
+				// the snapshot reaches something that cannot be loaded: record a blob that is never indexed
+				h.ops = append(h.ops, fmt.Sprintf("SaveSnap %d [0]", h.sn.get(o.Name)))
+				continue
 			}
 			var hs []string
 			for bh := range set {
@@ -231,6 +233,12 @@ func c15History(c *vctx, rng *vrng, num int, steps int) error {
 		cut := -1
 		if rng.chance(40) {
 			cut = rng.intn(10)
+		}
+		if args[0] == "prune" || (args[0] == "forget" && len(args) > 3) || args[0] == "repair" {
+			// operations that delete packs / index files: cut more often and anywhere in their (longer) op sequence
+			if rng.chance(65) {
+				cut = rng.intn(16)
+			}
 		}
 		e.rec.Reset()
 		e.rec.CutAt = cut
